@@ -30,7 +30,7 @@ LineOK(r, ix, tau) ==
         y   == [v \in 1..N |-> r.out.d[Flat(phi.sh, WithAxis(ix, k, v - 1))]]
         rhs == [v \in 1..N |-> RDiv(phi.d[Flat(phi.sh, WithAxis(ix, k, v - 1))], r.in.dt)]
         invdt == RDiv("1", r.in.dt)
-        slack(v) == IF ~r.in.delj THEN "0" ELSE DeljResidualSlack(r.in.grids, k, ix, p, y, v)
+        slack(v) == RAdd(AdvResidualSlack(r.in.grids, k, ix, p, y, v), IF ~r.in.delj THEN "0" ELSE DeljResidualSlack(r.in.grids, k, ix, p, y, v))
     IN  /\ AllNum(y)
         /\ \A v \in 1..N : RLeq(RAbs(RSub(rhs[v], RowApply(sys, invdt, y, v))),
                                 RAdd(RMul(tau, RowScale(sys, invdt, y, rhs, v)), slack(v)))
